@@ -215,7 +215,11 @@ func c05Disassemble(c *Ctx, cases []*Case) {
 				if len(f) < 2 {
 					return "(unparsable " + ln + ")"
 				}
-				parts = append(parts, "("+f[0]+" "+f[1]+" "+arg+")")
+				tgt := ""
+				if strings.HasPrefix(f[1], "OpJump") && len(f) > 3 {
+					tgt = " " + strings.Trim(f[3], "()") // the jump target printed in parentheses
+				}
+				parts = append(parts, "("+f[0]+" "+f[1]+" "+arg+tgt+")")
 			}
 			return "(ok " + strings.Join(parts, " ") + ")"
 		}()
